@@ -2,7 +2,7 @@
 
     Property theorems only; each is closed by [exact] of a lemma from [C14/Factor.v],
     [C14/Proofs.v], [C14/NS.v] or [C14/NSLink.v] and followed by [Print Assumptions]. *)
-From Coq Require Import List Bool.
+From Coq Require Import List Bool String.
 Import ListNotations.
 From Attrs Require Import C14.Model C14.Factor C14.Proofs C14.NS C14.NSLink.
 
@@ -198,3 +198,16 @@ Theorem literal_body_reading_of_hash_refuted :
             prov_at (decide c) Dh = Some pZ.
 Proof. exact literal_body_reading_of_hash_refuted_l. Qed.
 Print Assumptions literal_body_reading_of_hash_refuted.
+
+(** "An equivalent [__attrs_init__]": it comes from the same [_make_init_script] call as
+    the [__init__] it replaces (argument lists tied to the source text by the AST
+    extractor), including exception-ness, hash caching and the pre/post-init hooks. *)
+Theorem attrs_init_same_generator_call :
+  ic_args add_attrs_init_call = ic_args add_init_call /\
+  ic_attrs_init add_attrs_init_call = true /\ ic_attrs_init add_init_call = false /\
+  In "self._is_exc"%string (ic_args add_attrs_init_call) /\
+  In "self._cache_hash"%string (ic_args add_attrs_init_call) /\
+  In "self._has_pre_init"%string (ic_args add_attrs_init_call) /\
+  In "self._has_post_init"%string (ic_args add_attrs_init_call).
+Proof. exact attrs_init_same_generator_call_l. Qed.
+Print Assumptions attrs_init_same_generator_call.
